@@ -5,6 +5,7 @@ import (
 	"compress/gzip"
 	"encoding/binary"
 	"fmt"
+	"time"
 
 	"github.com/golang/snappy"
 )
@@ -34,6 +35,7 @@ type ChunkSpec struct {
 	Codec   int // codec id written to the footer and used for the bodies
 	Pages   []PageSpec
 	Literal bool   // snappy: literal-only blocks instead of the reference encoder's copies
+	Variant int    // further legal choices of the compressor (see CompressV): copy element kinds, gzip header fields / block types / members
 	Feature string // "" | "dict" | "codec-lzo" | "codec-brotli" | "codec-lz4" | "codec-zstd" | "codec-lz4raw"
 }
 
@@ -105,6 +107,86 @@ func snappyLiteral(data []byte) []byte {
 		data = data[n:]
 	}
 	return out
+}
+
+// snappyCopies is a small LZ77 encoder that cycles through all three copy element kinds (1-, 2- and 4-byte offsets) and
+// encodes runs as overlapping copies (offset smaller than length) - legal choices the reference encoder makes rarely or never.
+func snappyCopies(data []byte, kind int) []byte {
+	out := LEB128(uint64(len(data)))
+	lit := func(b []byte) {
+		for len(b) > 0 {
+			n := len(b)
+			if n > 60 {
+				n = 60
+			}
+			out = append(out, byte(n-1)<<2)
+			out = append(out, b[:n]...)
+			b = b[n:]
+		}
+	}
+	last := map[[4]byte]int{}
+	i, start := 0, 0
+	for i+4 <= len(data) {
+		var k [4]byte
+		copy(k[:], data[i:])
+		j, ok := last[k]
+		last[k] = i
+		if !ok || i-j > 60000 {
+			i++
+			continue
+		}
+		n := 4
+		for i+n < len(data) && data[j+n] == data[i+n] && n < 64 { // j+n may run into the bytes being produced: an overlapping copy
+			n++
+		}
+		lit(data[start:i])
+		off := i - j
+		switch {
+		case kind%3 == 0 && n <= 11 && off < 2048:
+			out = append(out, 1|byte(n-4)<<2|byte(off>>8)<<5, byte(off))
+		case kind%3 == 1 || off >= 65536:
+			out = append(out, 3|byte(n-1)<<2, byte(off), byte(off>>8), byte(off>>16), byte(off>>24))
+		default:
+			out = append(out, 2|byte(n-1)<<2, byte(off), byte(off>>8))
+		}
+		kind++
+		i += n
+		start = i
+	}
+	lit(data[start:])
+	return out
+}
+
+// CompressV is Compress with a variant number selecting among further legal encoder choices.
+func CompressV(codec int, data []byte, literal bool, variant int) ([]byte, error) {
+	switch {
+	case codec == CodecSnappy && !literal && variant%3 != 0:
+		return snappyCopies(data, variant), nil
+	case codec == CodecGzip && variant%5 != 0:
+		var b bytes.Buffer
+		level := gzip.BestCompression
+		switch variant % 5 {
+		case 2:
+			level = gzip.NoCompression // stored blocks
+		case 3:
+			level = gzip.HuffmanOnly
+		}
+		parts := [][]byte{data}
+		if variant%5 == 4 && len(data) > 1 {
+			parts = [][]byte{data[:len(data)/2], data[len(data)/2:]} // two members: a legal gzip stream
+		}
+		for _, part := range parts {
+			zw, _ := gzip.NewWriterLevel(&b, level)
+			if variant%5 == 1 {
+				zw.Name, zw.Comment, zw.Extra = "page.bin", "written by a foreign writer", []byte{1, 2, 3, 4, 5, 6}
+				zw.ModTime = time.Unix(1500000000, 0)
+			}
+			zw.Write(part)
+			zw.Close()
+		}
+		return b.Bytes(), nil
+	}
+	return Compress(codec, data, literal)
 }
 
 // Compress applies a codec the way a foreign writer would.
@@ -378,7 +460,7 @@ func encodePage(ch ChunkSpec, p PageSpec, dictIdx map[string]int) ([]byte, int, 
 		if len(defBytes) > 4 {
 			db = defBytes[4:]
 		}
-		cv, err := Compress(ch.Codec, values, ch.Literal)
+		cv, err := CompressV(ch.Codec, values, ch.Literal, ch.Variant)
 		if err != nil {
 			return nil, 0, err
 		}
@@ -406,7 +488,7 @@ func encodePage(ch ChunkSpec, p PageSpec, dictIdx map[string]int) ([]byte, int, 
 	}
 	levels = append(append(levels, repBytes...), defBytes...)
 	payload := append(levels, values...)
-	body, err := Compress(ch.Codec, payload, ch.Literal)
+	body, err := CompressV(ch.Codec, payload, ch.Literal, ch.Variant)
 	if err != nil {
 		return nil, 0, err
 	}
@@ -473,7 +555,7 @@ func WriteFile(spec FileSpec) ([]byte, error) {
 					dictIdx[valKey(Val{})] = 0
 				}
 				payload := PlainEncode(ch.Col.Type, dvals)
-				body, err := Compress(ch.Codec, payload, ch.Literal)
+				body, err := CompressV(ch.Codec, payload, ch.Literal, ch.Variant)
 				if err != nil {
 					return nil, err
 				}
